@@ -268,6 +268,9 @@ def main(argv=None):
         results[task['id']] = res
         status = res.get('status')
         label = task['label']
+        if os.environ.get('VERIF_VERBOSE'):
+            print('  [%s%s] %s paths=%s wall=%ss %s' % ('twin ' if task['vacuity'] else '', label, status, res.get('paths'),
+                                                     res.get('wall_s'), (res.get('detail') or '')[:100]), flush=True)
         if task['vacuity']:
             reached = status == 'REFUTED' and ('reached-end' in (res.get('detail') or ''))
             if not reached:
